@@ -63,10 +63,16 @@ class Builder:
         self.pools = {}
         self.parked = {}       # client -> actor id
         self.randkeys = []
+        self.reloads = []      # per reload: names of the backends whose existing sessions belong to a replaced pool
+        self.spare = "bx"      # a backend no pool points to at the start (reload targets)
+        self.uses_reload = False
+        self.admin = None
         self._rng = random.Random(len(label) * 7919 + psize)
         pools = ["dba", "dbb"] if two_pools else ["dba"]
         for i, p in enumerate(pools):
-            self.pools[p] = {"backend": "b%d" % i, "in_use": 0, "waiter": None}
+            self.pools[p] = {"backend": "b%d" % i, "servers": ["b%d" % i], "in_use": 0, "waiter": None}
+        self._initial_toml = self.toml()
+        self._initial_backends = [d["backend"] for d in self.pools.values()]
         for i in range(nclients):
             self.connect("c%d" % i, pools[i % len(pools)])
 
@@ -74,19 +80,23 @@ class Builder:
     def toml(self):
         pools = {}
         for p, d in self.pools.items():
+            servers = [[b, "primary" if i == 0 else "replica"] for i, b in enumerate(d["servers"])]
             pools[p] = {"opts": {"pool_mode": self.mode, "prepared_statements_cache_size": 16 if self.mode == "transaction" else 0}, "users": [{"pool_size": self.psize}],
-                        "shards": [{"database": "db_" + p, "servers": [[d["backend"], "primary"]]}]}
+                        "shards": [{"database": "db_" + p, "servers": servers}]}
         return WL.make_toml({"worker_threads": 4}, pools)
 
+    def backends(self):
+        return self._initial_backends + ([self.spare] if self.uses_reload else [])
+
     def scenario(self):
-        return {"backends": [{"name": d["backend"]} for d in self.pools.values()], "toml": self.toml(), "workers": 4,
+        return {"backends": [{"name": b} for b in self.backends()], "toml": self._initial_toml, "workers": 4,
                 "steps": self.steps + [{"op": "sleep", "ms": 40}, {"op": "snapshot", "label": "end"}]}
 
     def meta(self):
         return {"mode": self.mode, "psize": self.psize, "two_pools": self.two, "label": self.label,
                 "clients": list(self.order), "pool_of": {c: self.cl[c]["pool"] for c in self.order},
                 "accept": {c: self.cl[c]["accept"] for c in self.order}, "parked": dict(self.parked),
-                "backends": [d["backend"] for d in self.pools.values()], "actions": list(self.actions)}
+                "backends": self.backends(), "reloads": list(self.reloads), "actions": list(self.actions)}
 
     # -- helpers
     def _snap(self):
@@ -111,6 +121,9 @@ class Builder:
             return
         st["holds"] = False
         P = self.pools[st["pool"]]
+        if st.get("old_pool"):
+            st["old_pool"] = False     # the connection belonged to a pool that a reload replaced
+            return
         P["in_use"] -= 1
         w = P["waiter"]
         if w is not None:
@@ -190,7 +203,9 @@ class Builder:
     def finish(self, c):
         st = self.cl[c]
         self.actions.append(["finish", c])
-        self.steps += [{"op": "backend", "b": self.pools[st["pool"]]["backend"], "open_gate": st["running"]},
+        # (the statement runs wherever the pool sent it: open its gate on every backend)
+        self.steps += [{"op": "backend", "b": b, "open_gate": st["running"]} for b in self.backends()[:-1]]
+        self.steps += [{"op": "backend", "b": self.backends()[-1], "open_gate": st["running"]},
                        {"op": "recv", "c": c, "until": "Z", "timeout_ms": 8000}]
         st["running"] = None
         self._txn_end(c)
@@ -233,6 +248,44 @@ class Builder:
         self.actions.append(["bad", c, park, kind])
         self.steps.append({"op": "send", "c": c, "msgs": [dict(BAD[kind], bad=kind)]})
         self._exit(c, park)
+
+    def can_reload(self):
+        return not any(p["waiter"] is not None for p in self.pools.values())
+
+    def reload(self, kind, pool="dba", via="api"):
+        """kind: same (configuration unchanged) | move (the pool now points to the spare backend, or back) |
+        add (a second server is added to / removed from the pool).  via: api (write_config + reload_config)
+        | admin (write_config + RELOAD on the admin console) | sighup (the SIGHUP arm of main.rs)."""
+        self.uses_reload = True
+        P = self.pools[pool]
+        old = list(P["servers"])
+        if kind == "move":
+            P["servers"] = [self.spare] if old != [self.spare] else [P["backend"]]
+        elif kind == "add":
+            P["servers"] = [old[0], self.spare if old[0] != self.spare else P["backend"]] if len(old) == 1 else [old[0]]
+        changed = P["servers"] != old
+        self.actions.append(["reload", kind, pool, via])
+        if via == "admin" and self.admin is None:
+            self.admin = "adm"
+            self.steps.append({"op": "connect", "c": "adm", "params": {"user": "admin", "database": "pgcat"}, "password": "adminpw"})
+            self.accepted += 1
+        self.steps.append({"op": "write_config", "toml": self.toml()})
+        if via == "admin":
+            self.steps += [{"op": "send", "c": "adm", "msgs": [{"t": "Q", "sql": "RELOAD"}]},
+                           {"op": "recv", "c": "adm", "until": "Z", "timeout_ms": 8000}]
+        elif via == "sighup":
+            self.steps += [{"op": "control", "sig": "hup"}, {"op": "sleep", "ms": 150}]
+        else:
+            self.steps.append({"op": "reload"})
+        self.reloads.append(old if changed else [])
+        self.steps.append({"op": "mark_events", "ev": "reload", "mark": "reloaded:%d" % (len(self.reloads) - 1)})
+        if changed:
+            # the pool object is new: nothing of it is in use; holders keep their old connections
+            P["in_use"] = 0
+            for c in self.order:
+                if self.cl[c]["pool"] == pool and self.cl[c]["holds"]:
+                    self.cl[c]["old_pool"] = True
+        self._snap()
 
     def hook(self, park_clients):
         self.actions.append(["hook", list(park_clients)])
@@ -327,6 +380,36 @@ def systematic(hook):
                         b.long(o); b.cancel("c0"); b.cancel(o); b.finish(o); b.cancel(o); b.cancel("c0")
                         b.drain()
                         out.append(b)
+    # R: a configuration reload while a statement is running (the pool moves to another backend | a server is
+    # added | nothing changes; through reload_config or the admin console), cancels before and after
+    for mode in ("transaction", "session"):
+        for psize in (1, 2):
+            for via in ("api", "admin"):
+                for kind in ("move", "add", "same"):
+                    if kind == "add" and psize == 1:
+                        continue      # (a second server with pool_size 1 makes who-waits-where depend on the shuffle)
+                    for two in ((False, True) if (via == "api" and kind == "move") else (False,)):
+                        b = mk(mode, psize, 2 if not two else 4, two, "%s/p%d/%s/reload-%s-%s" % (mode[:4], psize, "2pools" if two else "1pool", kind, via))
+                        o = "c1" if not two else "c2"      # the other client of c0's pool
+                        b.cancel("c0")
+                        b.long("c0"); b.cancel("c0")
+                        if two:
+                            b.long("c1"); b.cancel("c1")   # a holder in the pool that does not change
+                        b.reload(kind, "dba", via)
+                        b.cancel("c0"); b.cancel(o); b.cancel("c0")
+                        if two:
+                            b.cancel("c1")
+                        b.long(o); b.cancel(o); b.cancel("c0")
+                        if b.can_reload():
+                            b.reload("move" if kind == "same" else kind, "dba", via)   # and once more (back) with both running
+                            b.cancel("c0"); b.cancel(o)
+                        b.finish("c0"); b.cancel("c0"); b.cancel(o)
+                        b.stmt("c0") if b.can("stmt", "c0") else None
+                        b.long("c0") if b.can("long", "c0") else None
+                        b.cancel("c0"); b.cancel(o)
+                        b.drain()
+                        b.cancel("c0"); b.cancel(o)
+                        out.append(b)
     if hook:
         for mode in ("transaction", "session"):
             for psize in (1, 2):
@@ -385,6 +468,11 @@ def random_step(b, rng, favour=None):
             b.cancel("random", rng)
         else:
             b.cancel(["pid_of", rng.choice(b.order)])
+        return True
+    if rng.random() < 0.09 and b.can_reload() and not b.parked:
+        pool = rng.choice(sorted(b.pools))
+        kinds = ["move", "move", "same"] + (["add"] if b.psize == 2 and sum(1 for c in b.order if b.cl[c]["pool"] == pool) <= 2 else [])
+        b.reload(rng.choice(kinds), pool, "admin" if rng.random() < 0.3 else "api")
         return True
     acts = [(a, c) for c in b.order for a in ("begin", "stmt", "long", "long", "finish", "finish", "commit", "term", "drop", "bad") if b.can(a, c)]
     if not acts:
@@ -450,10 +538,11 @@ def analyse(meta, res):
             if not e.get("auth_ok"):
                 return {"error": "client %s could not log in" % e["who"]}
             ckey[e["who"]] = (e["pid"], e["key"])
-    sess, sid_of, tgts = {}, {}, []
+    sess, sid_of, tgts, ready_seq = {}, {}, [], {}
     for e in ev:
         if e.get("ev") == "ready":
             sid_of[(e["who"], e["conn"])] = len(tgts)
+            ready_seq[(e["who"], e["conn"])] = e["seq"]
             sess[(e["who"], e["conn"])] = (e["pid"], e["key"])
             tgts.append((e["pid"], e["key"], bidx[e["who"]]))
     def clean_after(sk, seq):
@@ -473,6 +562,7 @@ def analyse(meta, res):
     alive = {c: True for c in clients}
     exiting = {}                               # parked client -> session it held
     skip_recv = set()
+    retired_sessions = set()
     ops, cancels, problems = [], [], []
     snaps = sorted(res.get("snapshots", []), key=lambda s: s["seq"])
     snap_at, si = [], 0
@@ -556,6 +646,13 @@ def analyse(meta, res):
             if fr and fr[-1].get("t") == "Z" and fr[-1].get("status") == "I" and mode == "transaction" and holding[who] is not None and alive[who]:
                 ops.append("ReleaseNormal %d %s" % (cidx[who], "true" if clean_after(holding[who], e["seq"]) else "false"))
                 holding[who] = None
+        elif kind == "mark" and str(e.get("mark", "")).startswith("reloaded:"):
+            # a configuration reload has completed: the sessions of the replaced pool(s) are retired
+            # (idle ones are never handed out again, borrowed ones stay with their borrower)
+            old = meta["reloads"][int(e["mark"].split(":")[1])]
+            retired = sorted(sid_of[sk] for sk in sid_of if sk[0] in old and ready_seq[sk] < e["seq"])
+            retired_sessions.update(sk for sk in sid_of if sk[0] in old and ready_seq[sk] < e["seq"])
+            ops.append("Reload [%s]" % "; ".join(str(x) for x in retired))
         elif kind == "mark" and e.get("of") == "cancel":
             # the window of the next cancel request opens here (its packets may be logged by the
             # backend before the harness logs `cancel_sent`)
@@ -568,7 +665,8 @@ def analyse(meta, res):
             cancels[-1].update({"owner": owner, "sym": sym, "op_index": len(ops), "held": held,
                                 "owner_exiting": owner[0] == "client" and owner[1] in exiting,
                                 "exiting_held": exiting.get(owner[1]) if owner[0] == "client" else None,
-                                "prior_same_key_since_checkout": False})
+                                "prior_same_key_since_checkout": False,
+                                "held_retired": held is not None and held in retired_sessions})
             # did an earlier request with this key arrive since the owner's checkout?  (class F28)
             if owner[0] == "client" and held is not None:
                 for o in reversed(ops):
@@ -672,7 +770,7 @@ def judge(b_meta, scn, a, model, variant_flags):
     if b_meta.get("parked") and not a["parked_ok"]:
         return [("tie-broken", "scenario %s: the client task did not stop at %s" % (label, HOOK_POINT),
                  dict(replay, correspondence="schedule point " + HOOK_POINT), False)], []
-    cd_removes, entry_first = variant_flags
+    cd_removes, entry_first = variant_flags[0], variant_flags[1]
     # monitor
     for i, v in enumerate(a["verdicts"]):
         for cls, text in v:
@@ -725,7 +823,7 @@ def evaluate(wire, metas, scns, workers):
     results = WL.run_scenarios(wire, scns, workers=workers, timeout=120)
     analyses = [analyse(m, r) for m, r in zip(metas, results)]
     good = [i for i, a in enumerate(analyses) if not a.get("error") and not a["problems"]]
-    exprs = ["(cancel_drop_removes code_variant, exit_entry_first code_variant)"] + [coq_expr(analyses[i]) for i in good]
+    exprs = ["(cancel_drop_removes code_variant, exit_entry_first code_variant, reload_prunes code_variant)"] + [coq_expr(analyses[i]) for i in good]
     vals = vlib.coq_eval("c10eval", PREAMBLE, exprs, shard=24)
     flags = vlib.parse_coq(vals[0])
     models = {i: vlib.parse_coq(v) for i, v in zip(good, vals[1:])}
@@ -777,6 +875,9 @@ def run_batch(run, wire, builders, stats, samples, distinct):
         stats["cancels"] += len(a["cancels"])
         stats["contacts"] += sum(1 for o in a["obs"] if o != "Silent")
         stats["ops"] += len(a["ops"])
+        stats["reload_ops"] += sum(1 for o in a["ops"] if o.startswith("Reload"))
+        stats["reload_changed"] += sum(1 for o in a["ops"] if o.startswith("Reload") and o != "Reload []")
+        stats["cancels_holder_of_retired"] += sum(1 for k in a["cancels"] if k.get("held_retired"))
         stats["traces"] += 1
         if m.get("parked"):
             stats["window_scenarios"] += 1
@@ -785,7 +886,7 @@ def run_batch(run, wire, builders, stats, samples, distinct):
             # a distinct case = (mode, pool size, pools, the abstract situation of the key's owner, outcome, op context)
             ctx = tuple(a["ops"][max(0, k["op_index"] - 3):k["op_index"]])
             distinct.add((m["mode"], m["psize"], m["two_pools"], k["owner"][0], k["held"] is not None, k["owner_exiting"],
-                          k["prior_same_key_since_checkout"], str(norm_outcome(a["obs"][j])) != "Silent", ctx))
+                          k["prior_same_key_since_checkout"], k.get("held_retired"), str(norm_outcome(a["obs"][j])) != "Silent", ctx))
             kind = ("exit-window" if k["owner_exiting"] else "holder" if k["held"] is not None else k["owner"][0] if k["owner"][0] != "client" else "not-holding")
             stats["timing_classes"][kind] = stats["timing_classes"].get(kind, 0) + 1
         if len(samples) < 6 and (i % 9 == 0 or m.get("parked")) and i in models:
@@ -818,7 +919,8 @@ def check(run):
     wire = os.environ.get("C10_WIRE") or bins["wire"]
     hook = hook_present()
     stats = {"scenarios": 0, "cancels": 0, "contacts": 0, "ops": 0, "traces": 0, "snapshots": 0, "monitor_flags": 0,
-             "window_scenarios": 0, "window_cancels": 0, "timing_classes": {}, "reruns": 0, "flaky": []}
+             "window_scenarios": 0, "window_cancels": 0, "timing_classes": {}, "reruns": 0, "flaky": [],
+             "reload_ops": 0, "reload_changed": 0, "cancels_holder_of_retired": 0}
     samples, distinct = [], set()
     builders = systematic(hook)
     nrand = 90 if quick else 1500
@@ -847,16 +949,18 @@ def check(run):
     run.cov["traces_validated_against_impl"] = stats["traces"]
     run.cov["rule"] = ("systematic families (mode transaction|session x pool_size 1|2 x one pool | two pools on two backends with identical session (pid,key)): "
                        "own-key timings (before any statement, during a gated statement, twice during it, idle in transaction, between transactions, after COMMIT, after X, right pid + wrong secret, random key, other client's key), "
-                       "hand-over of a server between two clients incl. cancel while waiting for the pool, error exits (socket closed | frame with length 3 | Close that panics its decoder | Bind of an unknown statement with the statement cache on; in a transaction | idle) followed by reuse of the server; "
+                       "hand-over of a server between two clients incl. cancel while waiting for the pool, error exits (socket closed | frame with length 3 | Close that panics its decoder | Bind of an unknown statement with the statement cache on; in a transaction | idle) followed by reuse of the server; configuration reloads (write_config + reload_config | admin RELOAD; pool moved to another backend | server added/removed | unchanged; one pool of two changed) while statements run, cancels before and after, next checkout on the new pool; "
                        "%s; plus %d seeded random client programs (8-14 actions, 2-3 clients; thorough: 12-24 actions, 2-4 clients) with a cancel at ~42%% of the positions and %d random programs with one exit held open at the schedule point. "
                        "evaluations = cancel requests judged three ways (backend packets, trace monitor, Coq model); distinct = distinct (mode, pool size, pools, owner situation, outcome, 3-op context) tuples"
                        % ("exit-window schedules held open with the schedule point %s (task parked between handle() and the drop of Client, another client takes the server, cancels with the departing key before/after)" % HOOK_POINT if hook else "NO schedule point in /repo: exit-window schedules skipped", nrand, nwin))
     run.cov["samples"] = samples
     run.cov["input_distribution"] = {"scenarios": stats["scenarios"], "ops": stats["ops"], "cancel_requests": stats["cancels"], "forwarded_to_a_backend": stats["contacts"],
                                      "map_size_snapshots_compared": stats["snapshots"], "by_owner_situation": stats["timing_classes"],
+                                     "reloads": stats["reload_ops"], "reloads_that_replaced_a_pool": stats["reload_changed"],
+                                     "cancels_by_a_holder_of_a_replaced_pools_session": stats["cancels_holder_of_retired"],
                                      "exit_window_scenarios": stats["window_scenarios"], "cancels_inside_exit_window": stats["window_cancels"],
-                                     "hook_point_present": hook, "scenarios_rerun_after_a_problem": stats["reruns"], "problems_not_reproduced_on_rerun": stats["flaky"][:10], "code_variant": {"cancel_drop_removes": flags[0], "exit_entry_first": flags[1]} if flags else None}
-    run.cov["transitions"] = "model ops exercised: Checkout, ReleaseNormal, Terminate, ExitDropGuard(clean|unclean), ExitDropClient, Cancel, CancelDrop (SrvClose is never forced by these scenarios)"
+                                     "hook_point_present": hook, "scenarios_rerun_after_a_problem": stats["reruns"], "problems_not_reproduced_on_rerun": stats["flaky"][:10], "code_variant": {"cancel_drop_removes": flags[0], "exit_entry_first": flags[1], "reload_prunes": flags[2]} if flags else None}
+    run.cov["transitions"] = "model ops exercised: Checkout, ReleaseNormal, Terminate, ExitDropGuard(clean|unclean), ExitDropClient, Cancel, CancelDrop, Reload (SrvClose is never forced by these scenarios)"
     if not proof_ok and not run.violations and not run.broken:
         run.violation("proof-broken", "coq/Cancel/Props.v no longer checks; the wire correspondence found no failing input", {"theorem": "Cancel/Props.v", "coq_log": log[-2500:]}, found_input=False)
     if not quick and proof_ok:
@@ -875,7 +979,7 @@ def replay(run, path):
     if a.get("error"):
         print("replay: scenario did not run:", a["error"])
         return 2
-    vals = vlib.coq_eval("c10replay", PREAMBLE, ["(cancel_drop_removes code_variant, exit_entry_first code_variant)", coq_expr(a)])
+    vals = vlib.coq_eval("c10replay", PREAMBLE, ["(cancel_drop_removes code_variant, exit_entry_first code_variant, reload_prunes code_variant)", coq_expr(a)])
     model = vlib.parse_coq(vals[1])
     print("ops  :", a["ops"])
     print("impl :", [str(o) for o in a["obs"]])
